@@ -317,6 +317,7 @@ def run_check(tier, seed):
         "same_thread_reentrancy": {
             "what": ("a simulated signal is delivered to a caller at one of its call's yield points and the handler asks the library another "
                      "question on the interrupted thread (DESIGN 9.8); both the interrupted and the nested call must return their isolated bits"),
+            "enabled": not os.environ.get("HSIM_NO_REENTRANCY"),
             "nested_calls_delivered": by_mode["fine"]["nested_calls_delivered"],
             "conflict_directed_reentrant_executions": by_mode["fine"]["nest_directed_executions"],
             "same_caller_conflicting_pairs": by_mode["fine"]["same_caller_conflict_pairs"],
